@@ -168,7 +168,10 @@ def make_long_cases(max_n):
     ids = st.one_of(st.text(alphabet=st.characters(min_codepoint=33, max_codepoint=126), min_size=1, max_size=12),
                     st.text(alphabet=st.characters(min_codepoint=33, max_codepoint=126), min_size=1, max_size=12),
                     # right-justified / padded ids: leading and trailing blanks belong to the id
-                    st.integers(0, 10**6).map(lambda v: "%8d" % v), st.sampled_from(["   71234", " a", "b ", "  x  y "]))
+                    st.integers(0, 10**6).map(lambda v: "%8d" % v), st.sampled_from(["   71234", " a", "b ", "  x  y "]),
+                    # long ids (uuid / URN style: 36..120 characters, many sharing their first 40)
+                    st.integers(0, 10**9).map(lambda v: "quakeml:org.example/event/%s-%09d" % ("0" * 16, v)),
+                    st.text(alphabet=st.characters(min_codepoint=48, max_codepoint=122), min_size=33, max_size=120))
 
     @st.composite
     def long_cases(draw):
